@@ -134,6 +134,48 @@ def oracle(ctx, seeds=None):
                 res.count('driver-checked')
             except Exception as e:
                 res.fail(name + ':raised', "%s: %s" % (type(e).__name__, e), rp)
+    # ---- the local-time-step directive with an implicit integrator on a system: every equation of cell i uses dt_i
+    for i in range(ctx.n(8, 80)):
+        kind = i % 2
+        n = int(rng.integers(2, 6))
+        xf = np.concatenate([[0.0], np.cumsum(10.0 ** rng.uniform(-1, 0, n))])
+        msh = impl.mesh.unimesh(ncell=n, length=float(xf[-1])); msh.xf = xf.copy(); msh.xc = msh.calc_centers()
+        if kind == 0:
+            g = gens.gamma(rng); m = impl.euler.euler1d(gamma=g)
+            q = m.prim2cons([rng.uniform(0.5, 2, n), rng.uniform(-0.5, 0.5, n), rng.uniform(0.5, 2, n)]); flux = 'hlle'
+        else:
+            m = impl.shallowwater.shallowwater1d(g=1.0)
+            q = m.prim2cons([rng.uniform(0.5, 2, n), rng.uniform(-0.5, 0.5, n)]); flux = 'hll'
+        name = ['euler1d', 'shallowwater'][kind]
+        cfl = float(rng.choice([0.5, 2.0, 6.0]))
+        res.case(('implicit-dtlocal', name, n, cfl))
+        rp = dict(model=name, cfl=cfl, n=n, kind='implicit-dtlocal')
+        try:
+            disc = impl.modeldisc.fvm(m, msh, impl.xnum.extrapol1(), numflux=flux, bcL={'type': 'per'}, bcR={'type': 'per'})
+            f = impl.field.fdata(m, msh, [np.array(x, dtype=float) for x in q])
+            dtv = np.asarray(disc.calc_timestep(f, cfl), dtype=float) * np.ones(n)
+            s0 = impl.integ.implicit(msh, disc)
+            J = np.array(s0.calc_jacobian(f.copy()), dtype=float).copy()
+            R = [np.array(x, dtype=float).copy() for x in disc.rhs(f.copy())]
+            out = impl.integ.implicit(msh, disc).solve(f, cfl, stop={'maxit': 1}, directives={'dtlocal': True})[-1]
+            neq = m.neq
+            M = np.diag(np.repeat(1.0 / dtv, neq)) - J
+            rhsv = np.zeros(neq * n)
+            for k in range(neq):
+                rhsv[k::neq] = R[k]
+            cnd = np.linalg.cond(M)
+            if not np.isfinite(cnd) or cnd > 1e10:
+                res.count('skipped-ill-conditioned'); continue
+            dQ = np.linalg.solve(M, rhsv)
+            for k in range(neq):
+                exp = np.asarray(q[k], dtype=float) + dQ[k::neq]
+                sc = float(np.max(np.abs(q[k]))) + float(np.max(np.abs(dQ[k::neq]))) + 1e-300
+                if not np.max(np.abs(np.asarray(out.data[k]) - exp)) <= 1e-9 * max(cnd, 1.0) * sc:
+                    res.fail(name + ':implicit-dtlocal', "implicit step with the local-time-step directive: equation %d of some cell is not advanced with that cell's own time step (relative difference %r to (diag(1/dt_cell) - J)^-1 R)" %
+                             (k, float(np.max(np.abs(np.asarray(out.data[k]) - exp))) / sc), rp)
+                    break
+        except Exception as e:
+            res.fail(name + ':raised', "%s: %s" % (type(e).__name__, e), rp)
     # ---- time increments of successive iterations, including a run continued with another CFL number
     for i in range(ctx.n(20, 300)):
         n = int(rng.integers(2, 8))
